@@ -5,3 +5,4 @@ import PlcProofs.Props.C01
 #print axioms C01.mirror_expression_roundtrip
 #print axioms C01.mirror_reads_any_parenthesisation
 #print axioms C01.mirror_statement_list_roundtrip
+#print axioms C01.mirror_library_roundtrip
